@@ -271,7 +271,11 @@ func runC15(r *mc.Run) {
 	provBytes := []struct {
 		name string
 		b    []byte
-	}{{"nil", nil}, {"empty", []byte{}}, {"quote", quote}, {"garbage", world.Fill("garbage", 100)}}
+	}{{"nil", nil}, {"empty", []byte{}}, {"quote", quote}, {"garbage", world.Fill("garbage", 100)},
+		// a provider is not bound by the device's 16 KiB buffer
+		{"quote+12000-extra-bytes", append(append([]byte{}, quote...), world.Fill("c15-extra", 12000)...)},
+		{"quote+60000-extra-bytes", append(append([]byte{}, quote...), world.Fill("c15-extra2", 60000)...)},
+		{"quote+zero-padding", append(append([]byte{}, quote...), make([]byte, 512)...)}}
 	// errors of the kinds a report file system produces: whatever the error is, it is the provider's to return
 	provErrs := []error{nil, errors.New("provider failure"), syscall.ENOENT, fs.ErrNotExist, &fs.PathError{Op: "open", Path: "/sys/kernel/config/tsm/report/x/outblob", Err: syscall.ENOENT},
 		fmt.Errorf("reading report: %w", fs.ErrNotExist), syscall.EBUSY, &fs.PathError{Op: "read", Path: "outblob", Err: syscall.EACCES}, fs.ErrPermission, syscall.ENXIO, syscall.ENODEV, io.EOF, io.ErrUnexpectedEOF,
